@@ -2,6 +2,8 @@ pub mod constants;
 pub mod helpers;
 pub mod mapped_stack;
 pub mod performance;
+#[cfg(fuellabs_sway_verif)]
+pub mod verif;
 pub use constants::*;
 pub use helpers::*;
 pub use mapped_stack::*;
